@@ -511,5 +511,365 @@ class C06Lemma(LemmaUnit):
                [ledger == accepted - emerged, accepted == emerged], ledger == 0)
 
 
+
+class AGatherUnit(Unit):
+    """AsyncServer._gather_output (a thread next to the event loop): pops exactly the entry of the uid received, schedules on the loop the resolution of
+    THAT future with its own outcome (RemoteException unwrapped; exception as exception) unless it is found cancelled, schedules exactly one slot
+    notification per pop, and never raises whatever the caller does to its future (the resolution itself runs later on the loop: if the caller
+    cancelled in between, asyncio reports InvalidStateError to the loop's exception handler -- nothing propagates into this thread)."""
+    prop = 'C07'
+    file = F
+    qual = 'AsyncServer._gather_output'
+    expected_exits = ('normal',)
+    ignore_stmts = (r"fut\.data\['t2'\] = .*",)
+    canaries = (('resolved with something else than its own outcome', 'loop.call_soon_threadsafe(fut.set_result, y)', 'loop.call_soon_threadsafe(fut.set_result, uid)', 'own outcome'),
+                ('exception scheduled as a result', 'loop.call_soon_threadsafe(fut.set_exception, y)', 'loop.call_soon_threadsafe(fut.set_result, y)', 'own outcome'),
+                ('slot not returned for abandoned requests', '            f = asyncio.run_coroutine_threadsafe(notify(), loop)', '            if fut.cancelled():\n                continue\n            f = asyncio.run_coroutine_threadsafe(notify(), loop)', 'one notification'),
+                ('resolution performed directly in the gather thread (raises when the caller cancelled)', 'loop.call_soon_threadsafe(fut.set_result, y)', 'fut.set_result(y)', ''))
+
+    def setup(self, ex):
+        st = St()
+        self.qout = QueueReader(ex, 'q_out')
+        self.qout.init(st)
+        self.ledger = SharedMap(ex, 'ledger').init(st, z3.Const('ledger0', z3.ArraySort(Val, Val)), z3.Int('n0'))
+        self.notifs = SharedMap(ex, 'notifications').init(st)
+        self.me = Rec(ex, 'self', immutable=True).init(st, _q_out=self.qout, _uid_to_futures=self.ledger, _pipeline_notfull=Rec(ex, 'cond', immutable=True), _pipeline_notfull_notifications=self.notifs)
+        st.env['self'] = self.me
+        ex.globals['perf_counter'] = GhostClock()
+        st.ghost['clock'] = z3.RealVal(0)
+        ex.globals['RemoteException'] = ExcClass('RemoteException')
+        st.ghost['none_got'] = z3.BoolVal(False)
+        self.fut = SharedFuture(ex, 'fut', other_may_cancel=True)
+        self.fut.init(st, fresh('fut_state0', z3.IntSort()))
+        self.exc_of = z3.Function('RemoteException_exc', Val, Val)
+        ex.sym_models['y'] = self
+        outer = self
+        st.ghost['sched'] = ()
+        st.ghost['notified_this'] = z3.IntVal(0)
+        st.ghost['popped_this'] = z3.BoolVal(False)
+
+        class FutProxy:
+            def getattr(self_, ex2, st2, base, attr, node):
+                from pyvc.core import BoundMethod
+                ex2.oblige(st2, f'line {node.lineno}: the object acted upon is the future popped for the received uid', base == outer.fut.val())
+                if attr == 'data':
+                    from pyvc.models import FutData
+                    return [('ok', st2, FutData())]
+                return [('ok', st2, BoundMethod(outer.fut, attr))]
+        ex.sym_models['fut'] = FutProxy()
+
+        def call_soon(e, s, a, k, n):
+            from pyvc.core import BoundMethod
+            s = s.fork()
+            m = unbox_handle(e, a[0])
+            ok = isinstance(m, BoundMethod) and m.obj is self.fut and m.name in ('set_result', 'set_exception') and len(a) == 2
+            e.oblige(s, f'line {n.lineno}: what is scheduled on the loop is set_result/set_exception of the future popped for this uid', z3.BoolVal(bool(ok)))
+            if ok:
+                s.ghost['sched'] = s.ghost['sched'] + ((m.name, box(e, a[1])),)
+            return [('ok', s, NONE)]
+        st.env['loop'] = Rec(ex, 'loop', immutable=True, methods={'call_soon_threadsafe': Fn(call_soon, trusted='loop.call_soon_threadsafe never raises while the loop is open; the callback runs later on the loop, its exceptions go to the loop exception handler')})
+
+        def run_coro(e, s, a, k, n):
+            s = s.fork()
+            e.oblige(s, f'line {n.lineno}: the coroutine scheduled is the slot notification, on the server\'s loop', z3.And(box(e, a[0]) == z3.Const('coroutine notify()', Val), z3.BoolVal(unbox_handle(e, a[1]) is st.env['loop'])))
+            s.ghost['notified_this'] = s.ghost['notified_this'] + 1
+            return [('ok', s, Rec(e, 'cf', immutable=True, methods={'add_done_callback': Nop()}))]
+        ex.globals['asyncio.run_coroutine_threadsafe'] = Fn(run_coro)
+        return st
+
+    def on_call(self, ex, st, e, src):
+        if src == 'notify':
+            return [('ok', st, z3.Const('coroutine notify()', Val))]      # calling an async def only creates the coroutine
+        return None
+
+    def getattr(self, ex, st, base, attr, node):
+        if attr == 'exc':
+            e = self.exc_of(base)
+            st = st.fork().assume(V.isinst(e, 'BaseException'), *V.cls_facts(e))
+            return [('ok', st, e)]
+        raise Unsupported(f'y.{attr}')
+
+    def interfere(self, ex, st, m, node):
+        if m is not self.ledger:
+            return
+        A1 = fresh('ledger', z3.ArraySort(Val, Val))
+        if 'cur_uid' in st.ghost:
+            st.assume(z3.Select(A1, st.ghost['cur_uid']) == z3.Select(m.arr(st), st.ghost['cur_uid']))
+        m.set(st, 'arr', A1)
+        m.set(st, 'size', fresh('ledger_size', z3.IntSort()))
+
+    def on_get(self, ex, st, q, k, z, node):
+        ex.oblige(st, f'line {node.lineno}: nothing is read after the end marker', z3.Not(st.ghost['none_got']))
+        s1 = st.fork().assume(z == NONE)
+        s1.ghost['none_got'] = z3.BoolVal(True)
+        s2 = st.fork()
+        uid, y = fresh('uid'), fresh('y')
+        s2.assume(z == V.tup(V.seq_of([uid, y])), *V.cls_facts(y), *V.cls_facts(z))
+        s2.ghost['cur_uid'] = uid
+        s2.ghost['cur_y'] = y
+        present = fresh('entry_present', z3.BoolSort())
+        s2.assume(z3.Select(self.ledger.arr(s2), uid) == z3.If(present, self.fut.val(), Absent))
+        self.fut.set(s2, 'state', fresh('fut_state', z3.IntSort()))
+        s2.assume(z3.Or(self.fut.state(s2) == PENDING, self.fut.state(s2) == CANCELLED))
+        s2.ghost['sched'] = ()
+        s2.ghost['popped_this'] = z3.BoolVal(False)
+        s2.ghost['notified_this'] = z3.IntVal(0)
+        s2.ghost['seen_cancelled'] = None
+        return [s1, s2]
+
+    def after_map_write(self, ex, st, m, kind, k, v, node):
+        if m is self.ledger:
+            ex.oblige(st, f'line {node.lineno}: [C06] the gather thread removes exactly the entry of the uid it received', z3.And(z3.BoolVal(kind == 'pop'), k == st.ghost['cur_uid']))
+            st.ghost['popped_this'] = z3.BoolVal(True)
+
+    @property
+    def loops(self):
+        def back(s, ex):
+            y = s.ghost['cur_y']
+            yy = z3.If(V.isinst(y, 'RemoteException'), self.exc_of(y), y)
+            popped = s.ghost['popped_this']
+            sched = s.ghost['sched']
+            ex.oblige(s, 'iteration: [C06] every popped entry gives its slot back: exactly one notification per pop, for every outcome kind incl. cancelled futures', s.ghost['notified_this'] == z3.If(popped, 1, 0))
+            if len(sched) == 0:
+                g = z3.BoolVal(True)        # nothing scheduled: the future was found cancelled (checked by the path: see cancelled() model) or the entry was missing
+            elif len(sched) == 1:
+                g = z3.And(popped, sched[0][1] == yy, z3.BoolVal(sched[0][0] == 'set_exception') == V.isinst(yy, 'BaseException'))
+            else:
+                g = z3.BoolVal(False)
+            ex.oblige(s, 'iteration: [C02/C04] at most one resolution is scheduled, for the future of that uid, with its own outcome (exception as exception, RemoteException unwrapped)', g)
+        sp = LoopSpec(inv=lambda s, ex: z3.Not(s.ghost['none_got']), keep=('q_out', 'pipeline', 'pipeline_notfull', 'notifications', 'notify'))
+        sp.on_backedge = back
+        return {0: sp}
+
+    def post(self, ex, outs):
+        for k, s, p in outs:
+            if k == 'raise':
+                ex.oblige(s, 'exit: [C07] no exception escapes the gather loop, whatever the caller does to its future (cancel at any moment)', False)
+            else:
+                ex.oblige(s, 'exit: only on the end marker', s.ghost['none_got'])
+
+
+# ================================================================ public entry points: thin wrappers (C02: own input -> own result)
+class CallUnit(Unit):
+    """Server.call(x): the result of waiting on the future that _enqueue returned for THIS x (with the caller's timeout / backpressure)."""
+    prop = 'C02'
+    file = F
+    qual = 'Server.call'
+    is_async = False
+    assumed_contracts = ('self._enqueue: unit Server._enqueue', 'self._wait_for_result: unit Server._wait_for_result')
+    canaries = (('waits on a future of another call', 'return self._wait_for_result(fut)', 'return self._wait_for_result(self._enqueue(None, timeout, backpressure))', ''),
+                ('backpressure flag dropped', 'fut = self._enqueue(x, timeout, backpressure)', 'fut = self._enqueue(x, timeout, True)', ''))
+
+    def setup(self, ex):
+        st = St()
+        self.x, self.timeout, self.bp = z3.Const('x', Val), z3.Const('timeout', Val), z3.Const('backpressure', Val)
+        self.fut_of = z3.Function('future_of_enqueue', Val, Val, Val, Val)
+        self.wait_of = z3.Function('wait_for_result', Val, Val)
+        st.ghost['enq'] = ()
+        st.ghost['waits'] = ()
+
+        def enqueue(e, s, a, k, n):
+            s = s.fork()
+            args = [box(e, v) for v in a] + [box(e, k[kk]) for kk in ('timeout', 'backpressure') if kk in k]
+            s.ghost['enq'] = s.ghost['enq'] + (tuple(args),)
+            exc = fresh('enqueue_exc')
+            s2 = s.fork().assume(V.isinst(exc, 'Exception'), *V.cls_facts(exc))
+            return [('ok', s, self.fut_of(*args)) if len(args) == 3 else ('ok', s, fresh('bad_future')), ('raise', s2, exc)]
+
+        def wait(e, s, a, k, n):
+            s = s.fork()
+            s.ghost['waits'] = s.ghost['waits'] + (box(e, a[0]),)
+            exc = fresh('wait_exc')
+            s2 = s.fork().assume(V.isinst(exc, 'BaseException'), *V.cls_facts(exc))
+            return [('ok', s, self.wait_of(box(e, a[0]))), ('raise', s2, exc)]
+        st.env.update(self=Rec(ex, 'self', immutable=True, methods={'_enqueue': Fn(enqueue), '_wait_for_result': Fn(wait)}), x=self.x, timeout=self.timeout, backpressure=self.bp)
+        return st
+
+    def post(self, ex, outs):
+        f = self.fut_of(self.x, self.timeout, self.bp)
+        for k, s, p in outs:
+            enq, waits = s.ghost['enq'], s.ghost['waits']
+            ok = len(enq) == 1 and len(enq[0]) == 3
+            own = z3.And(enq[0][0] == self.x, enq[0][1] == self.timeout, enq[0][2] == self.bp) if ok else z3.BoolVal(False)
+            if k in ('normal', 'return'):
+                ex.oblige(s, 'exit: enqueues its own x once (own timeout, own backpressure flag) and returns the outcome of waiting on exactly that future',
+                          z3.And(own, z3.BoolVal(len(waits) == 1), waits[0] == f, box(ex, p) == self.wait_of(f)) if len(waits) == 1 else z3.BoolVal(False))
+            else:
+                ex.oblige(s, 'exit(raise): only what its own enqueue / its own wait raised', z3.And(own, z3.BoolVal(len(waits) <= 1), waits[0] == f if waits else z3.BoolVal(True)))
+
+
+class ACallUnit(CallUnit):
+    qual = 'AsyncServer.call'
+    canaries = (('waits on a future of another call', 'return await self._wait_for_result(fut)', 'return await self._wait_for_result(await self._enqueue(None, timeout=timeout, backpressure=backpressure))', ''),)
+
+
+class StreamUnit(Unit):
+    """Server.stream: delegates to fifo_stream(data_stream, self._enqueue, ...) -- order and pairing are fifo_stream's contract (C01) --
+    with its own flags, the server's capacity as look-ahead bound, and backpressure off (a full server makes the stream wait, not fail)."""
+    prop = 'C02'
+    file = F
+    qual = 'Server.stream'
+    fifo_name = 'fifo_stream'
+    ignore_calls = ()
+    assumed_contracts = ('fifo_stream(...): units C01:fifo_stream[*]', 'self._enqueue: unit Server._enqueue')
+    canaries = (('stream fails fast on a full server', 'backpressure=False,', 'backpressure=True,', ''),
+                ('return_x / return_exceptions swapped', 'return_x=return_x,\n            return_exceptions=return_exceptions,', 'return_x=return_exceptions,\n            return_exceptions=return_x,', ''),
+                ('requests enqueued through another function', 'self._enqueue,', 'self._wait_for_result,', ''))
+
+    def setup(self, ex):
+        st = St()
+        self.data, self.rx, self.rexc, self.timeout, self.pre = z3.Const('data_stream', Val), z3.Bool('return_x'), z3.Bool('return_exceptions'), z3.Const('timeout', Val), z3.Const('preprocessor', Val)
+        self.cap = z3.Int('capacity')
+        self.enq = z3.Const('bound_method_self._enqueue', Val)
+        self.other = z3.Const('bound_method_self._wait_for_result', Val)
+        me = Rec(ex, 'self', immutable=True).init(st, _enqueue=self.enq, _wait_for_result=self.other, capacity=self.cap, _capacity=self.cap,
+                                                  __class__=Rec(ex, 'cls', immutable=True).init(st, __name__=z3.StringVal('Server')))
+        st.env.update(self=me, data_stream=self.data, return_x=self.rx, return_exceptions=self.rexc, timeout=self.timeout, preprocessor=self.pre)
+        st.ghost['fifo'] = ()
+        from contracts.c01 import FifoGen
+
+        def fifo(e, s, a, k, n):
+            s = s.fork()
+            s.ghost['fifo'] = s.ghost['fifo'] + ((list(a), dict(k)),)
+            g = FifoGen(e, a, k)
+            self.gen = g
+            return [('ok', s, g)]
+        ex.globals[self.fifo_name] = Fn(fifo, name=self.fifo_name)
+        return st
+
+    def post(self, ex, outs):
+        for k, s, p in outs:
+            calls = s.ghost['fifo']
+            if len(calls) != 1:
+                ex.oblige(s, f'exit: delegates exactly once to {self.fifo_name}', False)
+                continue
+            a, kw = calls[0]
+            ok = len(a) == 2 and {'return_x', 'return_exceptions', 'capacity', 'timeout', 'backpressure', 'preprocessor'} <= set(kw)
+            ex.oblige(s, f'exit({k}): delegates once to {self.fifo_name}(its own data stream, self._enqueue, ...) with its own flags/timeout/preprocessor, capacity == the server\'s capacity, backpressure=False',
+                      z3.And(box(ex, a[0]) == self.data, box(ex, a[1]) == self.enq, kw['return_x'] == self.rx, kw['return_exceptions'] == self.rexc, box(ex, kw['capacity']) == V.intv(self.cap),
+                             box(ex, kw['timeout']) == self.timeout, box(ex, kw['preprocessor']) == self.pre, box(ex, kw['backpressure']) == V.boolv(z3.BoolVal(False))) if ok else z3.BoolVal(False))
+            if k in ('normal', 'return') and not getattr(self, 'yields', False):
+                ex.oblige(s, 'exit: returns that generator itself', z3.BoolVal(unbox_handle(ex, p) is getattr(self, 'gen', None)))
+
+
+class AStreamUnit(StreamUnit):
+    """AsyncServer.stream: `async for z in async_fifo_stream(...): yield z` -- every element, in order, nothing else."""
+    qual = 'AsyncServer.stream'
+    fifo_name = 'async_fifo_stream'
+    yields = True
+    consumer_may_stop = False
+    canaries = (('stream fails fast on a full server', 'backpressure=False,', 'backpressure=True,', ''),
+                ('elements dropped', '            yield z', '            pass', 'every element'))
+
+    def setup(self, ex):
+        st = super().setup(ex)
+        st.ghost['out'] = V.EMPTY
+        self.src = z3.Function('fifo_out_at', z3.IntSort(), Val)
+        unit = self
+
+        class AGen(Obj):
+            """the async generator returned by async_fifo_stream: yields fifo_out_at(0), fifo_out_at(1), ... then ends or raises"""
+
+            def havoc(self_, e, s):
+                pass
+
+            def iter_start(self_, e, s, node):
+                s = s.fork()
+                s.ghost['gi'] = z3.IntVal(0)
+                return [('ok', s, self_)]
+
+            def havoc_index(self_, s):
+                i = fresh('gi', z3.IntSort())
+                s.assume(i >= 0)
+                s.ghost['gi'] = i
+
+            def idx(self_, s):
+                return s.ghost['gi']
+
+            def pull(self_, e, s, node):
+                i = s.ghost['gi']
+                s1 = s.fork()
+                s1.ghost['gi'] = i + 1
+                s2 = s.fork()
+                s2.ghost['ended'] = i
+                exc = fresh('fifo_exc')
+                s3 = s.fork().assume(V.isinst(exc, 'BaseException'), *V.cls_facts(exc))
+                return [('item', s1, unit.src(i)), ('stop', s2, None), ('raise', s3, exc)]
+        self.agen = AGen(ex, 'async_fifo_stream(...)')
+
+        def fifo(e, s, a, k, n):
+            s = s.fork()
+            s.ghost['fifo'] = s.ghost['fifo'] + ((list(a), dict(k)),)
+            return [('ok', s, self.agen)]
+        ex.globals[self.fifo_name] = Fn(fifo, name=self.fifo_name)
+        return st
+
+    @property
+    def loops(self):
+        def inv(s, ex):
+            i = s.ghost['gi']
+            out = s.ghost['out']
+            j = z3.Int('any_pos')
+            return z3.And(z3.Length(out) == i, z3.Implies(z3.And(j >= 0, j < i), out[j] == self.src(j)))
+        return {0: LoopSpec(inv=inv)}
+
+    def post(self, ex, outs):
+        super().post(ex, outs)
+        for k, s, p in outs:
+            if k in ('normal', 'return'):
+                j = z3.Int('any_pos')
+                out = s.ghost['out']
+                n = s.ghost.get('ended', z3.IntVal(-1))
+                ex.oblige(s, 'exit: yielded every element of async_fifo_stream, in order, and nothing else', z3.And(z3.Length(out) == n, z3.Implies(z3.And(j >= 0, j < n), out[j] == self.src(j))))
+
+
+class AWaitUnit(WaitUnit):
+    """AsyncServer._wait_for_result: awaits its own future until its own deadline; on time-out cancels it and raises TimeoutError to its own caller;
+    when the caller itself is cancelled the future is cancelled too (the late result is discarded by the gather thread)."""
+    qual = 'AsyncServer._wait_for_result'
+    canaries = (('timed-out request not cancelled', "            t0 = fut.data['t0']\n            fut.cancel()\n", "            t0 = fut.data['t0']\n", 'cancelled'),
+                ('future left pending when the caller is cancelled', '        except asyncio.CancelledError:\n            fut.cancel()\n', '        except asyncio.CancelledError:\n', 'cancelled'))
+
+    def setup(self, ex):
+        st = super().setup(ex)
+        fut = st.env['fut']
+
+        def wait_for(e, s, a, k, n):
+            outs = []
+            ok = unbox_handle(e, a[0]) is fut
+            e.oblige(s, f'line {n.lineno}: waits on its own future', z3.BoolVal(ok))
+            s1 = s.fork().assume(self.ok)
+            outs.append(('ok', s1, self.val))
+            s2 = s.fork().assume(z3.Not(self.ok))
+            outs.append(('raise', s2, self.exc))
+            s3 = s.fork()
+            s3.ghost['timed_out'] = z3.BoolVal(True)
+            outs.append(e.raise_new(s3, 'TimeoutError'))
+            s4 = s.fork()
+            s4.ghost['caller_cancelled'] = z3.BoolVal(True)
+            outs.append(e.raise_new(s4, 'asyncio.CancelledError'))
+            return outs
+        ex.globals['asyncio.wait_for'] = Fn(wait_for, trusted='asyncio.wait_for(fut, t): the outcome of fut, TimeoutError at the deadline, or CancelledError when the waiting task is cancelled')
+        fut.methods['result'] = Fn(lambda e, s, a, k, n: [x for x in (('ok', s.fork().assume(self.ok), self.val), ('raise', s.fork().assume(z3.Not(self.ok)), self.exc)) if e.feasible(x[1])])
+        ex.globals['asyncio.TimeoutError'] = ExcClass('TimeoutError')
+        ex.globals['TimeoutError'] = ExcClass('TimeoutError')
+        st.ghost['caller_cancelled'] = z3.BoolVal(False)
+        st.assume(z3.Not(V.isinst(self.exc, 'asyncio.CancelledError')))
+        return st
+
+    def post(self, ex, outs):
+        for k, s, p in outs:
+            if k in ('normal', 'return'):
+                ex.oblige(s, 'exit(return): the request\'s own result', z3.And(self.ok, box(ex, p) == self.val, z3.Not(s.ghost['cancel_called'])))
+            else:
+                own = z3.And(z3.Not(self.ok), p == self.exc, z3.Not(s.ghost['timed_out']), z3.Not(s.ghost['caller_cancelled']))
+                late = z3.And(s.ghost['timed_out'], V.isinst(p, 'TimeoutError'), s.ghost['cancel_called'])
+                gone = z3.And(s.ghost['caller_cancelled'], V.isinst(p, 'asyncio.CancelledError'), s.ghost['cancel_called'])
+                ex.oblige(s, 'exit(raise): the request\'s own exception; or -- only when its deadline passed -- TimeoutError after the future was cancelled; or the caller\'s own cancellation, after the future was cancelled',
+                          z3.Or(own, late, gone))
+
+
+UNITS_ENTRY = [CallUnit, ACallUnit, StreamUnit, AStreamUnit]
+
 UNITS_C06 = [EnqueueUnit, AEnqueueUnit, BacklogUnit, GatherUnit, NotifyUnit, C06Lemma]
-UNITS_C07 = [GatherUnit, WaitUnit]
+UNITS_C07 = [GatherUnit, WaitUnit, AGatherUnit, AWaitUnit]
